@@ -211,9 +211,18 @@ class Engine(ExprMixin, CallMixin, BuiltinMixin, VerifyMixin):
             for i in range(len(v.ty.elems)):
                 r = core.lappend(r, self.adapt(core.tget(v, i), ty.elem))
             return r
+        if ty is PY and v.ty in (EMPTY_LIST, EMPTY_DICT, EMPTY_SET):
+            return V(PY, core.py_sort().PObj(CTX.func("empty_obj", z3.IntSort(), z3.IntSort())(z3.IntVal({EMPTY_LIST: 0, EMPTY_DICT: 1, EMPTY_SET: 2}[v.ty]))))
+        if ty is PY and v.ty is STATIC:
+            return core.to_py(self.adapt(v, List(v.items[0].ty))) if v.items else self.adapt(V(EMPTY_LIST, None), PY)
         hook = getattr(self.reg, "coercions", {}).get((v.ty.key, ty.key))
         if hook is not None:
             return core.ufun("sf_" + hook, [v], ty)
+        if isinstance(v.ty, Opt) and not isinstance(ty, Opt):
+            hook = getattr(self.reg, "coercions", {}).get((v.ty.elem.key, ty.key))
+            if hook is not None:
+                self.notes.append("optional value passed where %s is expected: taken as present" % ty.key)
+                return core.ufun("sf_" + hook, [core.oval(v)], ty)
         if isinstance(ty, Opt) and v.ty != ty.elem and v.ty is not NONE:
             hook = getattr(self.reg, "coercions", {}).get((v.ty.key, ty.elem.key))
             if hook is not None:
@@ -479,7 +488,8 @@ class Engine(ExprMixin, CallMixin, BuiltinMixin, VerifyMixin):
             if isinstance(v.ty, Set) and core.is_virt(v):
                 v, ax = core.materialize(v)
                 st.assume(*ax)
-            if isinstance(v.ty, (List, Map)) and v.t is not None and not z3.is_const(v.t) and not st.dry:
+            if isinstance(v.ty, (List, Map)) and v.t is not None and not z3.is_const(v.t) and not st.dry \
+                    and (value_node is not None or inplace) and not self.in_spec:
                 # name compound container terms: keeps terms small and quantifier triggers legal
                 nv = fresh(v.ty, name)
                 st.assume(nv.t == v.t)
